@@ -164,3 +164,41 @@ package ice
 //@   site call registerAddress#1 assert registers-the-canonical-destination: arg0 == c
 //@   site call canonicalAddrPort#1 assert canonicalises-the-destination: arg0 == rAddr
 //@   site call writeToUDPAddrPort#1 assert writes-the-callers-bytes-to-the-callers-address: arg1 == buf && arg2 == rAddr
+
+// ---------------------------------------------------------------------------
+// MultiUDPMuxDefault forwards to the mux that listens on the requested address and
+// to every mux for removal / close; UniversalUDPMuxDefault keys per-URL connections
+// by ufrag+url on its own UDPMuxDefault.
+//@ func (*MultiUDPMuxDefault).GetConn
+//@   props C12 C13
+//@   opt nosafety
+//@   ghostvar key int = 0
+//@   site call String#1 assert keyed-by-the-requested-local-address: recv == addr
+//@   site call String#1 ghost key := result
+//@   ghostvar found bool = false
+//@   site call String#1 ghost found := has(m.localAddrToMux, result)
+//@   site call GetConn#1 assert forwards-to-the-mux-listening-on-that-address: ok && has(m.localAddrToMux, key) && recv == m.localAddrToMux[key] && arg0 == ufrag && arg1 == addr
+//@   ensures no-mux-for-that-address-hands-out-nothing: !found ==> result0 == nil && result1 != nil
+
+//@ func (*MultiUDPMuxDefault).RemoveConnByUfrag
+//@   props C12
+//@   opt nosafety
+//@   ghostvar removed int = 0
+//@   loop 1 invariant every-mux-so-far-was-asked: removed == rangeindex + 1 && rangeindex + 1 <= old(len(m.muxes))
+//@   site call RemoveConnByUfrag#1 assert asks-each-underlying-mux-for-this-ufrag: arg0 == ufrag && recv == mux
+//@   site call RemoveConnByUfrag#1 ghost removed := removed + 1
+//@   ensures removed-from-every-underlying-mux: removed == old(len(m.muxes))
+
+//@ func (*MultiUDPMuxDefault).Close
+//@   props C12 C13
+//@   opt nosafety
+//@   ghostvar closedN int = 0
+//@   loop 1 invariant every-mux-so-far-was-closed: closedN == rangeindex + 1 && rangeindex + 1 <= old(len(m.muxes))
+//@   site call Close#1 assert closes-each-underlying-mux: recv == mux
+//@   site call Close#1 ghost closedN := closedN + 1
+//@   ensures every-underlying-mux-closed-even-after-an-error: closedN == old(len(m.muxes))
+
+//@ func (*UniversalUDPMuxDefault).GetConnForURL
+//@   props C12
+//@   opt nosafety
+//@   site call GetConn#1 assert per-url-connection-on-its-own-mux: arg0 == m.UDPMuxDefault && arg2 == addr
